@@ -945,7 +945,9 @@ def variant_reach(body, start, no_nodes=(), no_edges=(), max_states=200000, assu
             if s[0] == "A" and len(s[1]) == 1 and s[2][0] == "agg" and isinstance(s[2][1], dict) and "vidx" in s[2][1]:
                 tracked.setdefault(s[1][0], True)
         t = bl["term"]
-        if t["t"] == "call" and t.get("f", "").startswith("core::bool::<impl bool>::then") and t.get("dest") and len(t["dest"]) == 1:
+        if t["t"] == "call" and t.get("dest") and len(t["dest"]) == 1 and (
+                t.get("f", "").startswith("core::bool::<impl bool>::then")
+                or t.get("f") in ("core::ops::try_trait::FromResidual::from_residual", "core::ops::try_trait::Try::branch")):
             tracked.setdefault(t["dest"][0], True)
     # locals receiving a whole move/copy of a tracked local are tracked too (`let m = if .. {a} else {b}` joins)
     grew = True
@@ -983,6 +985,11 @@ def variant_reach(body, start, no_nodes=(), no_edges=(), max_states=200000, assu
         e = dict(env)
         disc = {}
         for s in body.blocks[bb]["s"]:
+            if s[0] == "SD":
+                # a dead local carries no knowledge (keeps the state space small)
+                e.pop(s[1], None)
+                e.pop(("b", s[1]), None)
+                continue
             if s[0] != "A":
                 continue
             dst = s[1]
@@ -1014,6 +1021,22 @@ def variant_reach(body, start, no_nodes=(), no_edges=(), max_states=200000, assu
                     a0 = op_place(t["args"][0])
                     if a0 is not None and len(a0) == 1 and ("b", a0[0]) in e:
                         e[d0] = 1 if e[("b", a0[0])] else 0
+                elif t.get("f") == "core::ops::try_trait::FromResidual::from_residual" and len(t["dest"]) == 1:
+                    # `?` on the error path: Result -> Err (1), Option -> None (0)
+                    dty = t.get("dty", "")
+                    if dty.startswith("core::result::Result<"):
+                        e[d0] = 1
+                    elif dty.startswith("core::option::Option<"):
+                        e[d0] = 0
+                elif t.get("f") == "core::ops::try_trait::Try::branch" and len(t["dest"]) == 1 and t.get("args"):
+                    a0 = op_place(t["args"][0])
+                    if a0 is not None and len(a0) == 1 and a0[0] in e:
+                        v = e[a0[0]]
+                        aty = body.ty(a0[0])
+                        if aty.startswith("core::result::Result<"):
+                            e[d0] = v            # Ok(0) -> Continue(0), Err(1) -> Break(1)
+                        elif aty.startswith("core::option::Option<"):
+                            e[d0] = 0 if v == 1 else 1   # Some(1) -> Continue(0), None(0) -> Break(1)
         succs = list(body.succ[bb])
         if t["t"] == "sw":
             dl = op_local(t["d"])
@@ -1029,3 +1052,16 @@ def variant_reach(body, start, no_nodes=(), no_edges=(), max_states=200000, assu
             if (s_, fe) not in seen:
                 stack.append((s_, fe))
     return seen_blocks
+
+
+def vdominates(body, a, b):
+    """variant-sensitive dominance: `b` is unreachable from the entry once block `a` is removed, discounting paths on which an
+    `Err`/`None` produced by `?` (or a known aggregate variant) is later matched as `Ok`/`Some` (and vice versa)"""
+    if body.dominates(a, b):
+        return True
+    cache = body.__dict__.setdefault("_vdom_cache", {})
+    r = cache.get(a)
+    if r is None:
+        r = variant_reach(body, 0, no_nodes=(a,))
+        cache[a] = r
+    return b not in r
